@@ -128,6 +128,8 @@ type Genesis struct {
 }
 
 type Chain struct {
+	gasMu     sync.Mutex
+	gasLimits map[string]uint64
 	App      *baseapp.BaseApp
 	Keeper   *keeper.Keeper
 	Module   cctp.AppModule
@@ -206,6 +208,14 @@ func New(gen Genesis) (c *Chain, err error) {
 		mod.InitGenesis(ctx, enc.cdc, g.Cctp)
 		return &abci.ResponseInitChain{}, nil
 	})
+	// no fee, signature or sequence checks (A1): the only thing the ante step does is install a gas limit for the
+	// transactions a check asked for (by tag); everything else runs under the SDK's default unlimited meter
+	app.SetAnteHandler(func(ctx sdk.Context, tx sdk.Tx, simulate bool) (sdk.Context, error) {
+		if lim, ok := c.gasLimit(TxTag(ctx)); ok {
+			return ctx.WithGasMeter(storetypes.NewGasMeter(lim)), nil
+		}
+		return ctx, nil
+	})
 	if err := app.LoadLatestVersion(); err != nil {
 		return nil, err
 	}
@@ -262,6 +272,7 @@ type TxResult struct {
 	Events    []abci.Event
 	Resps     []proto.Message // decoded message responses (success only)
 	Decoded   bool            // false if the tx bytes did not decode
+	GasUsed   int64
 }
 
 func (r TxResult) OK() bool { return r.Code == 0 }
@@ -293,6 +304,23 @@ func (c *Chain) Simulate(raw []byte) (ok bool, log string) {
 	return true, ""
 }
 
+// SetGasLimit makes the transaction with the given tag run under a gas meter of that limit.
+func (c *Chain) SetGasLimit(tag string, limit uint64) {
+	c.gasMu.Lock()
+	defer c.gasMu.Unlock()
+	if c.gasLimits == nil {
+		c.gasLimits = map[string]uint64{}
+	}
+	c.gasLimits[tag] = limit
+}
+
+func (c *Chain) gasLimit(tag string) (uint64, bool) {
+	c.gasMu.Lock()
+	defer c.gasMu.Unlock()
+	l, ok := c.gasLimits[tag]
+	return l, ok
+}
+
 func blockTime(h int64) time.Time {
 	if BlockTimeBase.IsZero() {
 		return BlockTimeBase
@@ -313,7 +341,7 @@ func (c *Chain) DeliverBlock(txs [][]byte) []TxResult {
 	c.LastHash = res.AppHash
 	out := make([]TxResult, len(txs))
 	for i, tr := range res.TxResults {
-		r := TxResult{Tag: TagOf(txs[i]), Code: tr.Code, Codespace: tr.Codespace, Log: tr.Log, Events: tr.Events, Decoded: true}
+		r := TxResult{Tag: TagOf(txs[i]), Code: tr.Code, Codespace: tr.Codespace, Log: tr.Log, Events: tr.Events, Decoded: true, GasUsed: tr.GasUsed}
 		if tr.Code == 0 {
 			var data sdk.TxMsgData
 			if err := proto.Unmarshal(tr.Data, &data); err == nil {
